@@ -85,8 +85,10 @@ FLOORS = {
                       "direct_derivative": 100, "beyond_eval": 600, "table_meta": 2,
                       "pot_assembly": 150, "pot_stefan_boltzmann": 15, "pot_heavy": 15,
                       "pot_continuity": 150, "pot_cw": 15, "pot_global_state": 12,
-                      "pot_args": 300, "pot_j_vs_ref": 100, "pot_error_option": 20},
-              "cls": {"rows:b": 50, "rows:f": 50, "direct:b": 25, "direct:f": 25,
+                      "pot_args": 300, "pot_j_vs_ref": 100, "pot_error_option": 20,
+                      "history_warmup_evaluations": 4000, "history_vs_ref": 150,
+                      "history_vs_fresh": 150},
+              "cls": {"history": 4, "rows:b": 50, "rows:f": 50, "direct:b": 25, "direct:f": 25,
                       "beyond": 32, "pot:massless": 20, "pot:heavy": 20, "pot:cont0": 28,
                       "pot:contEnd": 16, "pot:cw": 20, "pot:global": 6, "pot:random": 40,
                       "tablemeta": 2, "oracle-selfcheck": 1}},
@@ -98,8 +100,10 @@ FLOORS = {
                          "beyond_eval": 3000, "table_meta": 2, "pot_assembly": 1500,
                          "pot_stefan_boltzmann": 150, "pot_heavy": 150,
                          "pot_continuity": 1500, "pot_cw": 150, "pot_global_state": 120,
-                         "pot_args": 3000, "pot_j_vs_ref": 1000, "pot_error_option": 200},
-                 "cls": {"rows:b": 50, "rows:f": 50, "beyond": 160, "pot:global": 60,
+                         "pot_args": 3000, "pot_j_vs_ref": 1000, "pot_error_option": 200,
+                         "history_warmup_evaluations": 25000, "history_vs_ref": 1000,
+                         "history_vs_fresh": 1000},
+                 "cls": {"history": 24, "rows:b": 50, "rows:f": 50, "beyond": 160, "pot:global": 60,
                          "tablemeta": 2, "oracle-selfcheck": 1}},
 }
 
@@ -284,6 +288,14 @@ def generate(tier, seed):
                                   "s": int(rng.integers(1 << 30))})
     # --- one-loop potential
     cases += _generate_pot(rng, quick)
+    # --- call histories on the stand-alone Integrals() object (the one the one-loop
+    # potential builds when it is asked to integrate without interpolation)
+    rngh = np.random.default_rng(2900 + seed)
+    for j in range(4 if quick else 24):
+        cases.append({"kind": "history", "n_warm": int(rngh.choice([520, 700, 1100])),
+                      "span": [float(rngh.uniform(-3, -1)), float(rngh.uniform(2, 3.3))],
+                      "order": str(rngh.choice(["cold-first", "hot-first", "shuffled"])),
+                      "s": int(rngh.integers(1 << 30))})
     for i, c in enumerate(cases):
         c["i"] = i
     return cases
@@ -341,6 +353,8 @@ def run_case(case):
         return _case_beyond(case)
     if k == "pot":
         return _case_pot(case)
+    if k == "history":
+        return _case_history(case)
     raise ValueError(k)
 
 
@@ -352,6 +366,58 @@ def _case_selfcheck(case):
     if not res["ok"]:
         out["inconclusive"] = f"oracle self-check failed: {res['failed'][:3]}"
     return out
+
+
+# ------------------------------------------------------------------ history independence
+def _case_history(case):
+    """Integrals() is documented to do the integrals directly.  Whatever has been evaluated
+    on it before (a temperature scan from cold to hot spans five decades of m^2/T^2), a
+    later value must still be the defining integral -- and equal to what a fresh object
+    returns for the same argument."""
+    from WallGo.PotentialTools import integrals as I
+    rng = np.random.default_rng(case["s"])
+    used = I.Integrals()
+    lo, hi = case["span"]
+    warm = 10.0 ** np.linspace(lo, hi, case["n_warm"])
+    if case["order"] == "hot-first":
+        warm = warm[::-1]
+    elif case["order"] == "shuffled":
+        warm = rng.permutation(warm)
+    mon = {"history_warmup_evaluations": 0, "history_vs_ref": 0, "history_vs_fresh": 0}
+    viol, worst = [], {}
+    for x in warm:
+        used.Jb(float(x))
+        used.Jf(float(x))
+        mon["history_warmup_evaluations"] += 2
+    state = {"Jb_has_table": bool(used.Jb.hasInterpolation()),
+             "Jf_has_table": bool(used.Jf.hasInterpolation())}
+    test = 10.0 ** rng.uniform(lo + 0.2, hi - 0.2, size=24)
+    fresh = I.Integrals()
+    for kind, obj, fr in (("b", used.Jb, fresh.Jb), ("f", used.Jf, fresh.Jf)):
+        for x in test:
+            x = float(x)
+            got = np.ravel(obj(x))[0]
+            ref = ref_J(kind, x)[0]
+            t = float(tq(ref))
+            mon["history_vs_ref"] += 1
+            _worst(worst, "history_vs_ref", abs(got - ref) / t, {"x": x, "J": kind})
+            if not abs(got - ref) <= t:
+                viol.append({"mech": "integral-depends-on-call-history",
+                             "msg": f"Integrals().J{kind}({x!r}) = {got!r} after "
+                             f"{case['n_warm']} earlier evaluations ({case['order']}, x from "
+                             f"1e{lo:.1f} to 1e{hi:.1f}); defining integral {ref!r} "
+                             f"(|diff| {abs(got - ref):.2e} > {t:.1e}); interpolation table "
+                             f"present: {state}", "data": {"x": x, "got": got, "ref": ref}})
+            g2 = np.ravel(fr(x))[0]
+            mon["history_vs_fresh"] += 1
+            if got != g2 and not abs(got - g2) <= 1e-3 * t:
+                viol.append({"mech": "used-object-differs-from-fresh-object",
+                             "msg": f"J{kind}({x!r}): used object {got!r}, fresh object {g2!r}",
+                             "data": {"x": x}})
+    return {"key": f"history:{case['order']}:{case['n_warm']}:{case['s']}",
+            "cls": ["history", "history:" + case["order"]], "nontrivial": True,
+            "obs": {"state_after_warmup": state, "worst": worst, "n_test": 2 * len(test)},
+            "viol": viol, "mon": mon}
 
 
 # ------------------------------------------------------------------------- table rows
